@@ -206,6 +206,8 @@ class Circuit:
             raise TypeError(
                 "Add method only supported for Circuit or Unitary objects."
             )
+        if name is not None and not isinstance(name, str):
+            raise TypeError("Name of the added circuit should be a string.")
         # Remap mode
         mode = self._map_mode(mode)
         self._mode_in_range(mode)
